@@ -130,6 +130,9 @@ pub struct Process {
     pub frames: Vec<Frame>,
     pub mailbox: VecDeque<Value>,
     pub persistent: bool,
+    /// The bottom frame is the one a persistent (REPL) process was resumed with: its locals are
+    /// the session's bindings. Cleared once a tail call has replaced that frame.
+    pub session_frame: bool,
     pub result: Option<Result<Value, crate::error::Error>>,
     pub select_state: Option<SelectState>,
     pub awaiting: HashMap<ProcessId, Option<Value>>,
@@ -143,6 +146,7 @@ impl Process {
             frames: Vec::new(),
             mailbox: VecDeque::new(),
             persistent,
+            session_frame: false,
             result: None,
             select_state: None,
             awaiting: HashMap::new(),
